@@ -193,6 +193,7 @@ func (c *client) dial(ctx context.Context, dialer DialConnFunc) (err error) {
 	c.stateMu.Unlock()
 	// losses reported so far concern the conns this one replaces
 	c.lossPending = false
+	verifhook.Point("dial.before-onpacket")
 	c.conn.OnPacket(c.onPacket)
 	verifhook.Point("dial.before-onclose")
 	c.conn.OnClose(c.onConnClose)
